@@ -183,7 +183,19 @@ namespace cs
             {
                 // half of the time by way of another type-erased reference that is re-seated afterwards: the new
                 // allocator must refer to the allocator object itself, not to the reference it was made from
-                if ((++any_made) % 2)
+                ++any_made;
+                if (any_made % 3 == 0)
+                {
+                    // from a shared allocator (is_shared_allocator: copies refer to the same state): the type-erased
+                    // reference keeps a copy, re-seating the user's handle afterwards must not move the container
+                    static LeafShared handles[16];
+                    auto&             h = handles[(any_made / 3) % 16];
+                    h = LeafShared(&env.leaf[leaf]);
+                    Alloc a(h);
+                    h = LeafShared(&env.leaf[1 - leaf]);
+                    return a;
+                }
+                if (any_made % 2)
                 {
                     fm::any_allocator_reference tmp(env.la[leaf]);
                     Alloc                       a(tmp.get_allocator());
@@ -210,8 +222,21 @@ namespace cs
         const int         leaves     = Flavour == 6 ? 4 : 2;
         std::size_t       log_pos    = 0;
 
+        const long owners_before = Owner::live();
+        int        last_leaf[4]  = {s[0].leaf, s[1].leaf, s[2].leaf, s[3].leaf};
         auto check = [&](const char* what, int step)
         {
+            // elements that own something: as many alive as the containers hold (here and in the reference)
+            if constexpr (std::is_same<T, Owner>::value && cat != CAT_STR)
+            {
+                long held = 0;
+                for (int i = 0; i < 4; ++i)
+                    held += long(contents(*s[i].c, false).size() + contents(ref[i], false).size());
+                if (Owner::live() - owners_before != held)
+                    violate("C10", "element_lifetime", "%s: %ld element objects are alive, the containers hold %ld "
+                                                       "(%s): an element was not destroyed, or destroyed twice",
+                            what, Owner::live() - owners_before, held, K::name);
+            }
             // released to an allocator that did not hand it out, or with other parameters
             if (!env.log.problem.empty())
                 violate("C10", "wrong_allocator", "%s (%s<%zu-byte elements>): %s", what, K::name, sizeof(T),
@@ -225,6 +250,30 @@ namespace cs
                                                           "of %zu bytes, %s_node_size says %zu",
                             K::name, sizeof(T), alignof(T), c.size, K::name, node_limit);
             }
+            // which allocator object each container is bound to: a request made through its allocator arrives at
+            // the leaf the model says (construction from handles, propagation on assignment and swap)
+            if (stateful)
+                for (int i = 0; i < 4; ++i)
+                {
+                    env.log.begin_op(0);
+                    Alloc al = s[i].c->get_allocator();
+                    auto  p  = al.allocate(1);
+                    int   at = env.log.calls.back().leaf % 2;
+                    al.deallocate(p, 1);
+                    log_pos = env.log.calls.size();
+                    if (Flavour == 1 && at != s[i].leaf && at == last_leaf[i])
+                    {
+                        // known finding K02 (type-erased allocators always compare equal): the library containers
+                        // skip the propagation between "equal" allocators, the target keeps the one it had
+                        stats().hit("reach.any_assignment_kept_its_allocator_K02");
+                        s[i].leaf = at;
+                    }
+                    last_leaf[i] = s[i].leaf;
+                    if (at != s[i].leaf)
+                        violate("C10", "bound_to_wrong_allocator", "%s: container %d (%s) is bound to allocator "
+                                                                   "object %d, it was given / should have kept %d",
+                                what, i, K::name, at, s[i].leaf);
+                }
             for (int i = 0; i < 4; ++i)
             {
                 if (contents(*s[i].c, unordered) != contents(ref[i], unordered))
